@@ -496,3 +496,37 @@ package chain
 //@     invariant m.tipState == old(m.tipState) && best == old(best) && sheight == old(sheight)
 //@   ensures [no-flush-outside-reorg] !mayHaveCalled("Store.Flush")
 //@   ensures [no-tip-change-without-reorg] !mayHaveCalled("reorgTo") ==> m.tipState == old(m.tipState) && best == old(best) && sheight == old(sheight)
+//
+// C03 (store side): DBStore commits only at a block boundary. The backend flush happens, if at
+// all, after the best-index/height update and the element update of the same block; Flush is a
+// no-op when nothing was written and resets the counter otherwise.
+//@ iface DB.Flush
+//@   assigns nothing
+//@ func (*DBStore).Flush props C03
+//@   nopanic
+//@   requires db != nil && db.db != nil
+//@   ensures [noop] old(db.unflushed) == 0 ==> !mayHaveCalled("DB.Flush") && result == nil
+//@   ensures [reset] old(db.unflushed) != 0 ==> called("DB.Flush") && db.unflushed == 0
+//@ func (*DBStore).ApplyBlock props C03
+//@   requires db != nil && db.db != nil && db.n != nil
+//@   ensures [writes-before-commit] !mayHaveCalled("(*DBStore).Flush") || (calledBefore("applyState", "(*DBStore).Flush") && (s.Index.Height > db.n.HardforkV2.RequireHeight || calledBefore("applyElements", "(*DBStore).Flush")))
+//@   ensures [state-written] called("applyState")
+//@ func (*DBStore).RevertBlock props C03
+//@   requires db != nil && db.db != nil && db.n != nil
+//@   ensures [writes-before-commit] !mayHaveCalled("(*DBStore).Flush") || (calledBefore("revertState", "(*DBStore).Flush") && (s.Index.Height > db.n.HardforkV2.RequireHeight || calledBefore("revertElements", "(*DBStore).Flush")))
+//@   ensures [state-written] called("revertState")
+// (assumed frames of the bucket-level writers: they change the write counter and the backend only)
+//@ func (*DBStore).applyState
+//@   assigns heap:DBStore
+//@   ensures db.db == old(db.db) && db.n == old(db.n)
+//@ func (*DBStore).revertState
+//@   assigns heap:DBStore
+//@   ensures db.db == old(db.db) && db.n == old(db.n)
+//@ func (*DBStore).applyElements
+//@   assigns heap:DBStore
+//@   ensures db.db == old(db.db) && db.n == old(db.n)
+//@ func (*DBStore).revertElements
+//@   assigns heap:DBStore
+//@   ensures db.db == old(db.db) && db.n == old(db.n)
+//@ func (*DBStore).shouldFlush
+//@   assigns nothing
